@@ -78,6 +78,18 @@ prop("C07", level="exploration",
      assumptions=["reference codecs in vlib/ref (pure Python, written from the specifications)", "mapping reference value -> jsoncons data model in vlib/monitors/c07.py:expected_desc"],
      stages=[dict(name="conformance", kind="python", module="c07", builds=[("x_bin", "asan")], values_quick=1200, values_thorough=60000)])
 
+prop("C08", level="exploration",
+     level_text="Recorded-log monitor: grammatical event sequences (balanced containers, keys alternating with values, container lengths declared correctly / too small / too large / not at all, every scalar kind and tag, typed arrays, "
+                "boundary-length strings, occasionally invalid UTF-8) are pushed through the visitor interface into the compact and pretty JSON encoders and the CBOR (with and without pack_strings), MessagePack, UBJSON and BSON encoders "
+                "under ASan+UBSan. An encoder may report an error; any output it produces must be read back IN FULL by an independent decoder (strict Python json with constants rejected / the reference codecs of C07, which are "
+                "length-strict) and denote exactly the pushed data. Transcoding: values decoded from reference-encoded (and mutated) inputs of each format are re-encoded as JSON text and in every binary format; each result "
+                "must be well-formed and the JSON text must denote the decoded value.",
+     level_note="Sampled sequences. CBOR typed-array tags written for typed_array events are not value-judged. Encoders are allowed to refuse any sequence (counted in the evidence, not judged).",
+     technique="runtime monitoring: recorded encoder output judged offline by independent decoders (strict JSON parser, reference binary decoders), ASan/UBSan on the encoding side",
+     rule="event sequences linearised from generated trees x 6 encoders, plus transcoded values x 6 targets; distinct = distinct trees / accepted transcoding inputs; all are non-trivial",
+     assumptions=["reference codecs in vlib/ref", "Python json module as strict RFC 8259 parser (parse_constant rejects NaN/Infinity)"],
+     stages=[dict(name="encoders", kind="python", module="c08", builds=[("x_bin", "asan")], sequences_quick=4000, transcodes_quick=4000, sequences_thorough=200000, transcodes_thorough=200000)])
+
 prop("C09", level="exploration",
      level_text="History monitor: random operation sequences (construct, copy/move construct and assign, swap, insert_or_assign, try_emplace, operator[], push/emplace_back, insert, erase by key/"
                 "iterator/range, merge, merge_or_update (copy and move), resize, reserve, shrink_to_fit, clear, lookups; also applied to nested containers) over pools of 4 json and 4 ojson values are mirrored on an "
